@@ -40,7 +40,7 @@ REQUIRED = ['ref_codec_rfc_vectors_ok', 'server_mode_case', 'client_mode_case',
             'ping_payload_125', 'pong_decoded_from_codec', 'written_len_7bit', 'written_len_16bit', 'written_len_64bit',
             'written_masked_frame', 'written_unmasked_frame', 'peer_close_then_frames_same_read', 'peer_close_then_frames_later_read',
             'write_after_peer_close', 'write_after_local_close', 'frames_after_local_close', 'close_frame_written_by_codec',
-            'client_constructor_data', 'two_sockets_interleaved', 'message_after_fragmented_message', 'codec_created_by_dispatcher_handshake']
+            'client_constructor_data', 'two_sockets_interleaved', 'message_after_fragmented_message', 'codec_created_by_dispatcher_handshake', 'codec_created_by_client_handshake', 'frames_in_the_same_read_as_the_101_response']
 REQUIRED_OBLIGATIONS = ['DECODE', 'ENCODE', 'PING_PONG', 'CTRL_IN_FRAGMENTED', 'AFTER_CLOSE_DELIVERY', 'AFTER_CLOSE_SEND']
 WORKER_TIMEOUT = {'quick': 300, 'thorough': 1500}
 
@@ -61,6 +61,8 @@ class Unsettled(Exception):
 
 UPGRADE_REQUEST = (b'GET /ws HTTP/1.1\r\nHost: localhost\r\nUpgrade: websocket\r\nConnection: Upgrade\r\n'
                    b'Sec-WebSocket-Key: AAECAwQFBgcICQoLDA0ODw==\r\nSec-WebSocket-Version: 13\r\n\r\n')
+HANDSHAKE_RESPONSE = (b'HTTP/1.1 101 Switching Protocols\r\nUpgrade: websocket\r\nConnection: Upgrade\r\n'
+                      b'Sec-WebSocket-Accept: ZmFrZS1hY2NlcHQtdmFsdWU=\r\n\r\n')
 
 
 # ------------------------------------------------------------------------------------------------
@@ -208,7 +210,29 @@ def execute(case, lay):
     log = w.out
     socks, codecs, ctor_errors = [], [], {}
     via_dispatcher = case.get('via') == 'dispatcher'   # server mode: the codec is created by the real upgrade handshake
+    via_client = case.get('via') == 'wsclient'         # client mode: the codec is created by the real WebSocketClient on the 101 response
     try:
+        if via_client:
+            from circuits import BaseComponent as _BC, handler as _h
+            from circuits.core.pollers import BasePoller
+            from circuits.web.websockets.client import WebSocketClient
+
+            class NullPoller(BasePoller):      # the transport finds a poller and never gets an event from it
+                channel = 'nullpoll'
+
+                def _generate_events(self, event):
+                    return None
+
+            class NoConnect(_BC):              # no real connection is made: the handshake response is injected as a read
+                @_h('ready', 'connect', channel='*', priority=100)
+                def _v_stop(self, event, *args, **kwargs):
+                    event.stop()
+
+            NullPoller().register(w)
+            NoConnect().register(w)
+            WebSocketClient('ws://ws.example/ws', channel='web', wschannel='ws').register(w)
+            Tap(log).register(w)
+            w.settle()
         if via_dispatcher:
             from circuits.web.http import HTTP
             from circuits.web.websockets import WebSocketsDispatcher
@@ -226,6 +250,13 @@ def execute(case, lay):
                 codecs.append(True)
                 continue
             initial = lay[ci][0][:conn.get('initial', 0)]
+            if via_client:
+                # the first bytes of the frame stream arrive in the same read as the end of the handshake response
+                w.inject(read(HANDSHAKE_RESPONSE + bytes(initial)))
+                if w.exceptions:
+                    raise Unsettled('client handshake raised: %r' % (w.exceptions[0][1],))
+                codecs.append(True)
+                continue
             try:
                 codec = WebSocketCodec(sock, initial, channel='ws') if server else WebSocketCodec(data=initial, channel='ws')
             except Exception as e:  # the constructor parses its data argument
@@ -236,6 +267,8 @@ def execute(case, lay):
             codecs.append(codec)
         if via_dispatcher:
             del log[:]
+        elif via_client:
+            pass    # what the handshake read already delivered / answered stays in the log (it belongs to step -1, like constructor data)
         else:
             Tap(log).register(w)
         try:
@@ -453,6 +486,10 @@ def features(case, lay, tl, obs):
     c['server_mode_case' if case['mode'] == 'server' else 'client_mode_case'] += 1
     if case.get('via') == 'dispatcher':
         c['codec_created_by_dispatcher_handshake'] += 1
+    if case.get('via') == 'wsclient':
+        c['codec_created_by_client_handshake'] += 1
+        if any(conn.get('initial', 0) for conn in case['conns']):
+            c['frames_in_the_same_read_as_the_101_response'] += 1
     inside_cut = False
     if len(case['conns']) > 1:
         order = [st[1] for st in case['steps'] if st[0] in ('feed', 'feedby')]
@@ -733,6 +770,13 @@ def corpus():
         if c['mode'] == 'server' and c.get('name') in ('len-126-text', 'len-65536-bin', 'fragments-pong', 'pings-standalone', 'safe-cuts-126',
                                                         'peer-close-later-reads', 'local-close-then-peer-close', 'two-sockets', 'mask-00000000'):
             cases.append(dict(copy.deepcopy(c), via='dispatcher', name=c['name'] + '-via-dispatcher'))
+    # 11. client side through the real WebSocketClient: the 101 response and the first 0..n bytes of the frame stream in ONE read
+    for c in list(cases):
+        if c['mode'] == 'client' and len(c['conns']) == 1 and c.get('name', '').startswith(('ctor-data-', 'len-126', 'len-65536', 'fragments-', 'pings-standalone')):
+            cases.append(dict(copy.deepcopy(c), via='wsclient', name=c['name'] + '-via-wsclient'))
+    for k in (0, 1, 2, 5, 10, 11, 40, 1 << 30):
+        cases.append(dict(one('client', [msg('text', 8, 1), msg('bin', 300, 2, splits=[100]), msg('text', 0, 3), ['ping', b'p', None], msg('text', 3, 4)],
+                              [['feed', 0, ALL], ['write', 0, ['text', 4, 9]]], initial=k, name='wsclient-handshake-plus-%d' % min(k, 9999)), via='wsclient'))
     return [sanitize(c) for c in cases]
 
 
@@ -808,7 +852,7 @@ def gen_case(rng, big=0.0):
                 feeds.append([['feedby', ci, frames[0]['hdr_end'] + 2, 1], ['feedby', ci, ALL, k]])
         else:
             cuts = gen_cuts(rng, frames, total, style)
-            if mode == 'client' and cuts and rng.random() < 0.15:
+            if mode == 'client' and cuts and rng.random() < 0.3:
                 conn['initial'] = cuts.pop(0)
             feeds.append([['feed', ci, c] for c in cuts] + [['feed', ci, ALL]])
         conns.append(conn)
@@ -827,7 +871,10 @@ def gen_case(rng, big=0.0):
             extra.append(['close', ci])
     for st in extra:
         steps.insert(rng.randint(0, len(steps)), st)
-    return sanitize({'mode': mode, 'conns': conns, 'steps': steps})
+    case = {'mode': mode, 'conns': conns, 'steps': steps}
+    if mode == 'client' and rng.random() < 0.3:
+        case['via'] = 'wsclient'      # the real WebSocketClient creates the codec; `initial` bytes share the read of the 101 response
+    return sanitize(case)
 
 
 def family(tier):
